@@ -332,6 +332,91 @@ pub fn run_program(text: &str, stdlib: bool, fuel: u64, rec: Option<Rc<RefCell<R
     res
 }
 
+/// The REPL route: the prelude and then every top-level statement are parsed against the SAME interpreter and run
+/// unscoped, one after the other (what an embedding host does with successive inputs). Names bound by earlier
+/// inputs are variables of the interpreter when a later input is checked. Statement texts separated by '\u{1}'.
+pub fn run_program_repl(prelude: &str, stmts: &[String], stdlib: bool, fuel: u64, rec: Option<Rc<RefCell<Recorder>>>, watch: &[String]) -> RunResult {
+    let mut interp = if stdlib { Interpreter::with_stdlib() } else { Interpreter::without_stdlib() };
+    let text = format!("{prelude}{}", stmts.concat());
+    let mut res = RunResult { text, parse: "ok".into(), static_type: None, status: "value".into(), value: None, detail: String::new(), log: None, watched: vec![] };
+    let mut inputs: Vec<&str> = vec![];
+    if !prelude.is_empty() {
+        inputs.push(prelude);
+    }
+    inputs.extend(stmts.iter().map(|s| s.as_str()));
+    let n_pre = if prelude.is_empty() { 0 } else { 1 };
+    let mut last: Option<(Variable, Option<simplesl::variable::Type>)> = None;
+    for (i, input) in inputs.iter().enumerate() {
+        let code = match catch(|| Code::parse(&interp, input)) {
+            Err(p) => {
+                res.parse = "panic".into();
+                res.status = "parse-panic".into();
+                res.detail = p;
+                break;
+            }
+            Ok(Err(e)) => {
+                res.parse = error_kind(&e);
+                res.status = "rejected".into();
+                res.detail = e.to_string();
+                break;
+            }
+            Ok(Ok(c)) => c,
+        };
+        let hooked = i >= n_pre;
+        if let (Some(r), true) = (&rec, hooked) {
+            let r2 = r.clone();
+            verif::set_sink(Some(Box::new(move |ev| r2.borrow_mut().on(ev))), true);
+        }
+        verif::set_budget(fuel, 200);
+        let out = catch(|| code.exec_unscoped(&mut interp));
+        verif::set_sink(None, false);
+        verif::set_budget(u64::MAX, usize::MAX);
+        match out {
+            Err(p) if is_budget(&p) => {
+                res.status = "budget".into();
+                res.detail = p;
+                break;
+            }
+            Err(p) => {
+                res.status = "panic".into();
+                res.detail = p;
+                break;
+            }
+            Ok(Err(e)) => {
+                res.status = "error".into();
+                res.detail = exec_error_kind(&e).into();
+                break;
+            }
+            Ok(Ok(v)) => {
+                last = Some((v, catch(|| code.return_type()).ok()));
+            }
+        }
+    }
+    if res.status == "value" {
+        if let Some((v, t)) = &last {
+            let mut ids = Ids::default();
+            res.value = Some(value_to_wire(v, &mut ids, 0));
+            res.detail = format!("{v:?}");
+            res.static_type = t.as_ref().map(type_to_wire);
+            if let (Some(r), Some(t)) = (&rec, t) {
+                r.borrow_mut().push(json!({"ev": "final", "ty": type_to_wire(t), "v": value_full(v, 0, &mut vec![])}));
+            }
+        }
+    }
+    for name in watch {
+        let mut ids = Ids::default();
+        res.watched.push((name.clone(), interp.get_variable(name).map(|v| value_to_wire(v, &mut ids, 0))));
+    }
+    if let Some(Variable::Mut(cell)) = interp.get_variable("log") {
+        if let Ok(g) = cell.variable.try_read() {
+            if let Variable::Array(a) = &*g {
+                res.log = Some(a.iter().filter_map(|x| x.as_int().copied()).collect());
+            }
+        }
+    }
+    res
+}
+
 /// `hide(ty, e)` is the identity in the specification (Lang.tla: Ev of "hide" is Ev of its operand); it only
 /// keeps the implementation's folder from seeing the value. The constant twin of a program has every hide removed.
 fn unhide(v: &Value) -> Value {
@@ -368,6 +453,21 @@ pub fn run(args: &[String]) -> Value {
             t["const_twin"] = json!(true);
             twins.push(t);
         }
+        // REPL twins: the statements of the program fed one by one to one interpreter (same outcome predicted)
+        if std::env::var("VERIF_NO_REPL_TWINS").is_err() {
+            for case in &cases {
+                let grouped = case["group"].as_str().map(|g| !g.is_empty()).unwrap_or(false);
+                let n = case["prog"].as_array().map(|a| a.len()).unwrap_or(0);
+                if grouped || case["negative"].as_bool().unwrap_or(false) || case["norepl"].as_bool().unwrap_or(false) || n < 2 {
+                    continue;
+                }
+                let mut t = case.clone();
+                t["id"] = json!(format!("{}#repl", case["id"].as_str().unwrap_or("?")));
+                t["const_twin"] = json!(true);     // judged like a constant twin: earlier bindings are known values
+                t["repl_twin"] = json!(true);
+                twins.push(t);
+            }
+        }
         cases.extend(twins);
     }
     let mut events_out = args.get(1).map(|p| std::io::BufWriter::new(std::fs::File::create(p).unwrap()));
@@ -387,9 +487,19 @@ pub fn run(args: &[String]) -> Value {
         *by_suite.entry(suite.clone()).or_insert(0) += 1;
         let exp = &case["exp"];
         let stmts = case["prog"].as_array().unwrap();
+        let repl = case["repl_twin"].as_bool().unwrap_or(false);
+        let mut repl_parts: (String, Vec<String>) = (String::new(), vec![]);
         let text = match catch(|| {
             let mut rd = Renderer::new();
-            let t = rd.program(stmts);
+            let t = if repl {
+                let parts: Vec<String> = stmts.iter().map(|s| rd.stmts(std::slice::from_ref(s), 0)).collect();
+                let pre = rd.prelude(true);
+                let whole = format!("{pre}{}", parts.concat());
+                repl_parts = (pre, parts);
+                whole
+            } else {
+                rd.program(stmts)
+            };
             for (path, body) in &rd.files {
                 if let Some(dir) = std::path::Path::new(path).parent() {
                     let _ = std::fs::create_dir_all(dir);
@@ -407,7 +517,11 @@ pub fn run(args: &[String]) -> Value {
         distinct.insert(text.clone());
         let rec = Rc::new(RefCell::new(Recorder::default()));
         let watch: Vec<String> = case["watch"].as_array().map(|w| w.iter().map(|x| x["n"].as_str().unwrap().to_string()).collect()).unwrap_or_default();
-        let r = run_program(&text, case["std"].as_bool().unwrap_or(false), fuel, Some(rec.clone()), &watch);
+        let r = if repl {
+            run_program_repl(&repl_parts.0, &repl_parts.1, case["std"].as_bool().unwrap_or(false), fuel, Some(rec.clone()), &watch)
+        } else {
+            run_program(&text, case["std"].as_bool().unwrap_or(false), fuel, Some(rec.clone()), &watch)
+        };
         let rec = Rc::try_unwrap(rec).ok().map(RefCell::into_inner).unwrap_or_default();
         n_events_raw += rec.raw;
         if let Some(w) = &mut events_out {
@@ -507,6 +621,10 @@ pub fn run(args: &[String]) -> Value {
                 // a constant twin may report at checking time the very error the specification predicts for the run
                 if twin && is_fold_class && exp_status == "error" && exp["v"].as_str() == Some(r.parse.as_str()) {
                     *counts.entry("const-twin-error-reported-early".into()).or_insert(0) += 1;
+                } else if case["repl_twin"].as_bool().unwrap_or(false) {
+                    // C17: the incremental route may differ in which programs it accepts (it sees actual values where
+                    // the batch route sees declared types)
+                    *counts.entry("repl-twin-refused-permitted".into()).or_insert(0) += 1;
                 } else if twin && is_fold_class {
                     // C04's permitted difference: an operation on constant operands that fails whenever it is evaluated
                     // may be reported when the program is checked, even where the hidden twin never reaches it
